@@ -285,23 +285,36 @@ func decryptKeyV1(keyProtected *encryptedKeyJSONV1, auth string) (keyBytes []byt
 
 func getKDFKey(cryptoJSON cryptoJSON, auth string) ([]byte, error) {
 	authArray := []byte(auth)
-	salt, err := hex.DecodeString(cryptoJSON.KDFParams["salt"].(string))
+	saltHex, ok := cryptoJSON.KDFParams["salt"].(string)
+	if !ok {
+		return nil, fmt.Errorf("invalid KDF parameter: salt")
+	}
+	salt, err := hex.DecodeString(saltHex)
 	if err != nil {
 		return nil, err
 	}
-	dkLen := ensureInt(cryptoJSON.KDFParams["dklen"])
+	dkLen, err := ensureInt(cryptoJSON.KDFParams["dklen"])
+	if err != nil || dkLen < 32 {
+		return nil, fmt.Errorf("invalid KDF parameter: dklen")
+	}
 
 	if cryptoJSON.KDF == keyHeaderKDF {
-		n := ensureInt(cryptoJSON.KDFParams["n"])
-		r := ensureInt(cryptoJSON.KDFParams["r"])
-		p := ensureInt(cryptoJSON.KDFParams["p"])
+		n, err1 := ensureInt(cryptoJSON.KDFParams["n"])
+		r, err2 := ensureInt(cryptoJSON.KDFParams["r"])
+		p, err3 := ensureInt(cryptoJSON.KDFParams["p"])
+		if err1 != nil || err2 != nil || err3 != nil || r <= 0 || p <= 0 {
+			return nil, fmt.Errorf("invalid scrypt parameters")
+		}
 		return scrypt.Key(authArray, salt, n, r, p, dkLen)
 
 	} else if cryptoJSON.KDF == "pbkdf2" {
-		c := ensureInt(cryptoJSON.KDFParams["c"])
-		prf := cryptoJSON.KDFParams["prf"].(string)
-		if prf != "hmac-sha256" {
-			return nil, fmt.Errorf("Unsupported PBKDF2 PRF: %s", prf)
+		c, err := ensureInt(cryptoJSON.KDFParams["c"])
+		if err != nil {
+			return nil, fmt.Errorf("invalid KDF parameter: c")
+		}
+		prf, ok := cryptoJSON.KDFParams["prf"].(string)
+		if !ok || prf != "hmac-sha256" {
+			return nil, fmt.Errorf("Unsupported PBKDF2 PRF: %v", cryptoJSON.KDFParams["prf"])
 		}
 		key := pbkdf2.Key(authArray, salt, c, dkLen, sha256.New)
 		return key, nil
@@ -310,13 +323,14 @@ func getKDFKey(cryptoJSON cryptoJSON, auth string) ([]byte, error) {
 	return nil, fmt.Errorf("Unsupported KDF: %s", cryptoJSON.KDF)
 }
 
-// TODO: can we do without this when unmarshalling dynamic JSON?
-// why do integers in KDF params end up as float64 and not int after
-// unmarshal?
-func ensureInt(x interface{}) int {
-	res, ok := x.(int)
-	if !ok {
-		res = int(x.(float64))
+// ensureInt converts a JSON number (float64 after unmarshalling, int when the
+// parameter map was built in-process) to int; anything else is an error.
+func ensureInt(x interface{}) (int, error) {
+	switch v := x.(type) {
+	case int:
+		return v, nil
+	case float64:
+		return int(v), nil
 	}
-	return res
+	return 0, fmt.Errorf("not a number: %v", x)
 }
